@@ -69,6 +69,8 @@ func (g *Gen) streamSpec(total int, marks []int, errorFaults bool) StreamSpec {
 		f := Fault{Kind: enabled[g.R.N(len(enabled))], Off: off}
 		if f.Kind == FaultStall {
 			f.Arg = g.R.Range(1, 5)
+		} else if g.R.P(1, 2) {
+			f.Arg = g.R.N(6) // which error the reader fails with
 		}
 		if f.Kind == FaultDataErr && f.Off == 0 {
 			f.Off = 1
@@ -334,8 +336,8 @@ func genP13(g *Gen, p *Program) {
 
 func genP14(g *Gen, p *Program) {
 	g.sharedPool(p, 200)
-	kinds := []string{"Decompose", "ComposeRow", "Compose"}
-	weights := []int{4, 4, 5}
+	kinds := []string{"Decompose", "ComposeRow", "Compose", "Scribble"}
+	weights := []int{5, 4, 5, 1}
 	ep := Epoch{Mode: g.epochMode(1)}
 	ep.Tasks = g.tasksOf(p, g.R.Range(1, 3), 10, kinds, weights)
 	// buffers around the 16-byte threshold
